@@ -137,6 +137,25 @@ func LookupCheck(p string) (CheckSpec, bool) {
 
 var lastStack string
 
+// StackNow returns the trimmed stack of the calling goroutine (used inside a recover handler).
+func StackNow() string { return trimStack(string(debug.Stack())) }
+
+func trimStack(st string) string {
+	var keep []string
+	for _, l := range strings.Split(st, "\n") {
+		if strings.HasPrefix(l, "\t") && (strings.Contains(l, "/repo/") || strings.Contains(l, "/verif/sim/")) {
+			if i := strings.LastIndex(l, " +0x"); i > 0 {
+				l = l[:i]
+			}
+			keep = append(keep, strings.TrimSpace(l))
+		}
+	}
+	if len(keep) > 8 {
+		keep = keep[:8]
+	}
+	return strings.Join(keep, " <- ")
+}
+
 // LastStack returns the (trimmed) stack of the most recent panic caught by Guard.
 func LastStack() string { return lastStack }
 
